@@ -5,6 +5,8 @@ tools/rs2lean_fn.py — regenerates Lean definitions from the SOURCE TEXT of sel
   fn:bitseq   /repo/yui/src/misc/bitseq.rs                         -> lean/Yuiv/Gen/BitSeqFn.lean   (Props/C17Gen.lean)
   fn:ratio    /repo/yui/src/types/ratio.rs                         -> lean/Yuiv/Gen/RatioFn.lean    (Props/C14Gen.lean)
   fn:intext   /repo/yui/src/misc/int_ext.rs + abst/euc_ring.rs     -> lean/Yuiv/Gen/IntExtFn.lean   (Props/C15Gen.lean)
+  fn:qint     /repo/yui/src/types/qint.rs                          -> lean/Yuiv/Gen/QIntFn.lean     (Props/C14GenQ.lean, C15GenQ.lean)
+  fn:ff       /repo/yui/src/types/ff.rs + f2.rs                    -> lean/Yuiv/Gen/FFFn.lean       (Props/C14GenF.lean)
 
 A small translator for a restricted Rust subset.  It tokenises the file, parses items (enum, struct, impl blocks,
 trait default methods, consts, fn signatures, single-arm `macro_rules!`) and — per function — statements and expressions
@@ -12,17 +14,23 @@ with a recursive-descent / precedence-climbing parser, and emits one Lean defini
 function BODIES is hard-coded: only, per target (TARGETS below), the list of functions that must be translatable.
 
 Supported subset
-  items        `enum` with unit variants, `struct` with named fields (type parameters only with scalar = "Z"),
+  items        `enum` with unit variants, `struct` with named fields or tuple structs (fields `f0`, `f1`, …; type
+               parameters only with scalar = "Z"), `type A<I> = …;` aliases,
                inherent `impl T { const..; fn.. }`, trait impls `impl Trait<..> for T { type X = ..; fn.. }` (an impl for
                `&T` gets the tag suffix `_ref`), blanket impls `impl<T> Trait for T`, default methods of a `trait`,
                nested `fn` items and `use …::Ordering::*` inside a body; with the target option `macros`: item-level
                invocations of `macro_rules!` definitions that have ONE arm `($a:frag, $b:frag, …) => { … }` are expanded
-               (token substitution); attributes (`#[inline]`, `#[auto_ops]`, `#[cfg]`) are ignored
+               (token substitution; a macro may be invoked before its definition); attributes (`#[inline]`,
+               `#[auto_ops]`, `#[cfg]`) are ignored
   generics     `<T>` (a plain type variable), `where U: From<T>` for a user type U (an explicit function argument
                `U_from_T : T → U`; `U::from(x)` applies it), `I: IntoIterator<Item = T>` (the `List` of the items;
                `.into_iter()` is the identity); with scalar = "Z": a parameter all of whose bounds are ring / integer
                traits (SCALAR_BOUNDS; `for<'x> &'x T: EucRingOps<T>` included) is INSTANTIATED by the unbounded integers;
-               lifetimes are erased
+               lifetimes are erased; with the target option `const_generics`: ONE `const D: i32` parameter of a struct
+               becomes an explicit leading argument `(D : Int)` of every function of a generic impl, an impl for a fixed
+               argument (`QuadInt<I, -1>`, also through an alias `GaussInt<I>`) passes the literal and gets the tag
+               suffix `_m1`; all values of that struct inside one function are taken to have the function's argument
+               (checked on every type that names the struct), impls for another argument are not candidates of a call
   types        u64, usize (both 64 bit; scalar = None), the scalar `Int` (scalar = "Z"), bool, the enums / structs of the
                file, (), tuples, Ordering, Option<_>, references (erased)
   statements   `let` / `let mut` with identifier or flat tuple patterns, assignments and compound assignments to
@@ -37,20 +45,26 @@ Supported subset
                `match` on integer / bool / enum / Ordering values and tuples of them (literal, wildcard and binding
                patterns; compiled to an if-chain, exhaustiveness checked), struct literals, tuples, `Some(e)`,
                `.unwrap()`, `.reverse_bits()`, `.cmp(&e)`, `.reverse()`, `.then(e)`, `.then_with(|| e)`, `.clone()`,
-               and with scalar = "Z" the ring methods / associated functions listed in ZMETH / ZSTATIC
+               `b.then_some(e)`, `if let Some(x) = e {..} else {..}`, tuple-struct constructors `Self(a, b)`, `x.0`,
+               `<&'a I>::neg(a)`, `Add::add(x, y)`; `+ - * / %` and unary `-` on a user type are its written `Add` / … /
+               `Neg` impl (the by-value / by-reference forms derived by `#[auto_ops]` are identified with it);
+               with scalar = "Z" the ring methods / associated functions listed in ZMETH / ZMETH_M / ZSTATIC, with the
+               target option `int32` those of the checked i32 (WMETH / WMETH_M / WSTATIC_M)
 Semantics emitted
   scalar = None (bitseq): lean/Yuiv/Model/RustArith.lean (trusted): overflow checks and debug assertions ON; `+ - *`
     panic on overflow, `/ %` on zero divisor, `<< >>` when the amount is >= 64.  All integer literals are taken to be
     64-bit unsigned (a literal that rustc would default to i32 is outside the subset).
   scalar = "Z" (ratio, intext): lean/Yuiv/Model/RustRing.lean (trusted): unbounded `Int`; `/ %` truncate and panic on a
     zero divisor; `EucRing::gcd/lcm` of the integer types are the non-negative gcd / lcm.
+  int32 (ff): `i32` (also through `type I = i32`) is an `Int` with checked arithmetic, lean/Yuiv/Model/RustI32.lean
+    (trusted); a `const p: i32` argument has that type too (for qint the const generic is read as an unbounded `Int`).
   common: `assert!` failure panics; every panic is `Res.panic`; `&mut self` methods return the new struct value;
     `&&`/`||`/`then_with` are lazy; shared references are erased to copies (sound because the borrow checker forbids
     mutation of the referent while the reference is live); `x op= y` on a user type is its `OpAssign` impl; loops run
     on fuel (`Res.err` when it runs out): the constant `loopFuel`, or — target option `fuel_param` — an explicit first
     argument `fuel` of every function that (transitively) contains a loop.
 
-Usage: rs2lean_fn.py [fn:bitseq] [fn:ratio] [fn:intext] [--src FILE]... [--out FILE]      (no target = all targets)
+Usage: rs2lean_fn.py [fn:bitseq] [fn:ratio] [fn:intext] [fn:qint] [fn:ff] [--src FILE]... [--out FILE]   (none = all)
   `--src` (once per source file of the target, in its order) and `--out` need exactly one target.
 Exit status 0: every selected generated file is up to date or was rewritten; 1: for some target something in a
 REQUIRED function (or in the item structure) is outside the subset — `rs2lean_fn: cannot translate: <what>` is printed
@@ -105,6 +119,46 @@ TARGETS = {
             ("Ratio", "Neg", "neg"), ("Ratio", "Neg_ref", "neg"), ("Ratio", "MulAssign_Ratio_T", "mul_assign"),
             ("Ratio", "DivAssign_Ratio_T", "div_assign"), ("Ratio", "Ring", "inv"), ("Ratio", "Ring", "is_unit"),
             ("Ratio", "Ring", "normalizing_unit"), ("Ratio", "Ord", "cmp"), ("Ratio", "PartialOrd", "partial_cmp")]),
+    "qint": dict(
+        src="/repo/yui/src/types/qint.rs", out="QIntFn.lean", ns="Yuiv.GenQInt", scalar="Z", macros=True,
+        fuel_param=True, const_generics=True,
+        imports=["Yuiv.Model.Res", "Yuiv.Model.RustRing"],
+        blurb=["One Lean definition per translated Rust function.  `I := Int` (unbounded); the const generic `D: i32` is an explicit",
+               "argument `(D : Int)` of every function of an `impl<I, const D: i32>` block, the impls for `GaussInt<I>` / `EisenInt<I>`",
+               "(= `QuadInt<I, -1>` / `QuadInt<I, -3>`, names tagged `_m1` / `_m3`) pass the literal; the tuple struct has the fields",
+               "`f0`, `f1`.  Operators and trait methods of `I`: Yuiv/Model/RustRing.lean; panics are `Res.panic`.",
+               "`Yuiv/Props/C14GenQ.lean` / `C15GenQ.lean` prove them equal to the hand-written models `C14.QI.*` / `C15.QInt.*`."],
+        required=_req("QuadInt", ("new", "omega", "is_rational", "left", "right", "pair_into", "pair", "conj", "norm")) + [
+            ("QuadInt", "From_I", "from"), ("QuadInt", "Zero", "zero"), ("QuadInt", "Zero", "is_zero"),
+            ("QuadInt", "One", "one"), ("QuadInt", "One", "is_one"),
+            ("QuadInt", "Neg", "neg"), ("QuadInt", "Neg_ref", "neg"),
+            ("QuadInt", "Add_QuadInt_I_D_ref", "add"), ("QuadInt", "Sub_QuadInt_I_D_ref", "sub"),
+            ("QuadInt", "Mul_QuadInt_I_D_ref", "mul"),
+            ("QuadInt", "DivRound_m1", "div_round"), ("QuadInt", "Div_GaussInt_I_ref_m1", "div"),
+            ("QuadInt", "Rem_GaussInt_I_ref_m1", "rem"),
+            ("QuadInt", "DivRound_m3", "div_round"), ("QuadInt", "Div_EisenInt_I_ref_m3", "div"),
+            ("QuadInt", "Rem_EisenInt_I_ref_m3", "rem"),
+            ("QuadInt", "Ring", "is_unit"), ("QuadInt", "Ring", "inv"), ("QuadInt", "Ring", "normalizing_unit")]),
+    "ff": dict(
+        src=["/repo/yui/src/types/ff.rs", "/repo/yui/src/types/f2.rs"], out="FFFn.lean", ns="Yuiv.GenFF", scalar="Z",
+        macros=True, fuel_param=True, const_generics=True, int32=True,
+        imports=["Yuiv.Model.Res", "Yuiv.Model.RustRing", "Yuiv.Model.RustI32"],
+        blurb=["One Lean definition per translated Rust function of ff.rs (`FF<p>`) and f2.rs (`FF2`).  `I = i32` is an `Int` with CHECKED",
+               "arithmetic (Yuiv/Model/RustI32.lean: `+ - * neg` panic outside the i32 range, `rem_euclid` is `Int.emod`,",
+               "`I::gcdx` is num-integer's extended gcd); the const generic `p` is an explicit argument `(p : Int)`; the generic",
+               "`I: ToPrimitive` of `From<I> for FF2` is read as an unbounded `Int`; panics are `Res.panic`.",
+               "`Yuiv/Props/C14GenF.lean` proves them equal to the hand-written models `C14.FF.*` / `C14.FF2.*`."],
+        required=_req("FF", ("new", "rep")) + [
+            ("FF", "From_I", "from"), ("FF", "Zero", "zero"), ("FF", "Zero", "is_zero"), ("FF", "One", "one"),
+            ("FF", "One", "is_one"), ("FF", "Neg", "neg"), ("FF", "Neg_ref", "neg"),
+            ("FF", "Add_FF_p_ref", "add"), ("FF", "Sub_FF_p_ref", "sub"), ("FF", "Mul_FF_p_ref", "mul"),
+            ("FF", "Div_FF_p_ref", "div"), ("FF", "Rem_FF_p_ref", "rem"),
+            ("FF", "Ring", "inv"), ("FF", "Ring", "is_unit"), ("FF", "Ring", "normalizing_unit"),
+            ("FF2", "From_I", "from"), ("FF2", "Zero", "zero"), ("FF2", "Zero", "is_zero"), ("FF2", "One", "one"),
+            ("FF2", "One", "is_one"), ("FF2", "Neg", "neg"), ("FF2", "Neg_ref", "neg"),
+            ("FF2", "Add_FF2_ref", "add"), ("FF2", "Sub_FF2_ref", "sub"), ("FF2", "Mul_FF2_ref", "mul"),
+            ("FF2", "Div_FF2_ref", "div"), ("FF2", "Rem_FF2_ref", "rem"),
+            ("FF2", "Ring", "inv"), ("FF2", "Ring", "is_unit"), ("FF2", "Ring", "normalizing_unit")]),
     "intext": dict(
         src=["/repo/yui/src/misc/int_ext.rs", "/repo/yui/src/abst/euc_ring.rs"], out="IntExtFn.lean",
         ns="Yuiv.GenIntExt", scalar="Z", macros=True, fuel_param=True,
@@ -123,6 +177,7 @@ SCALAR_BOUNDS = {"EucRing", "EucRingOps", "Integer", "IntOps", "Ring", "RingOps"
                  "Sized", "Copy", "PartialEq", "Eq", "PartialOrd", "Ord", "DivAssign", "RemAssign", "AddAssign",
                  "SubAssign", "MulAssign", "Signed", "FromPrimitive", "ToPrimitive", "AddMon", "AddGrp", "Mon", "Elem",
                  "AddMonOps", "AddGrpOps", "MonOps"}
+SCALAR_BOUNDS_FF = {"ToPrimitive"}
 
 
 class Unsupported(Exception):
@@ -242,7 +297,10 @@ BLOCKLIKE = {"if", "while", "for", "loop", "match", "unsafe"}
 
 
 class Parser:
+    const_generics = False      # target option: `const D: i32` parameters are value parameters
+
     def __init__(self, toks, pos=0, end=None):
+        self.cparams_seen = []
         self.t, self.i = toks, pos
         self.end = len(toks) if end is None else end
 
@@ -335,6 +393,14 @@ class Parser:
         if self.at("impl") or self.at("dyn"):
             k = self.next().val
             return k + " " + self.ty_bounds()
+        if self.at("<"):                         # qualified path `<T as Trait>::Name` (not in the subset, kept as text)
+            self.next(); inner = self.ty()
+            if self.eat("as"): inner += " as " + self.ty()
+            self.split_shr(); self.expect(">")
+            out = "<" + inner + ">"
+            while self.at("::") and self.peek(1).kind == "id":
+                self.next(); out += "::" + self.ident()
+            return out
         segs = [self.ident()]
         gen = ""
         while True:
@@ -363,6 +429,8 @@ class Parser:
                 nm = self.ident(); self.next(); parts.append(nm + "=" + self.ty())
             elif self.peek().kind in ("int", "char", "str"):
                 parts.append(str(self.next().val))
+            elif self.at("-") and self.peek(1).kind == "int":
+                self.next(); parts.append("-" + str(self.next().val))
             else:
                 parts.append(self.ty())
             self.split_shr()
@@ -384,7 +452,11 @@ class Parser:
                     while self.peek().kind == "life" or self.at("+"): self.next()
             elif self.at("const"):
                 self.next(); nm = self.ident(); self.expect(":"); t = self.ty()
-                reason = reason or f"const generic parameter {nm}: {t}"
+                if Parser.const_generics:
+                    self.cparams_seen.append(nm)
+                    self.cparam_types = getattr(self, "cparam_types", {}); self.cparam_types[nm] = t
+                else:
+                    reason = reason or f"const generic parameter {nm}: {t}"
             else:
                 nm = self.ident()
                 tps.append(nm)
@@ -572,7 +644,10 @@ class Parser:
             t = self.peek()
             if self.at("."):
                 nt = self.peek(1)
-                if nt.kind == "int": raise Unsupported(f"tuple field access (line {t.line})")
+                if nt.kind == "int":
+                    self.next(); self.next()
+                    e = N("field", e=e, name=str(nt.val), line=t.line)
+                    continue
                 if nt.kind == "id" and nt.val == "await": raise Unsupported("await")
                 self.next()
                 name = self.ident()
@@ -612,6 +687,9 @@ class Parser:
         if t.kind == "life":
             raise Unsupported(f"loop label (line {t.line})")
         if t.kind == "p":
+            if t.val == "<":                      # `<&'a I>::method`
+                self.next(); q = self.ty(); self.split_shr(); self.expect(">"); self.expect("::")
+                return N("path", segs=[q, self.ident()], line=t.line)
             if t.val == "(":
                 self.next()
                 if self.eat(")"): return N("unit", line=t.line)
@@ -639,7 +717,16 @@ class Parser:
             self.next(); return N("bool", v=(kw == "true"), line=t.line)
         if kw == "if":
             self.next()
-            if self.at("let"): raise Unsupported(f"`if let` (line {t.line})")
+            if self.at("let"):
+                self.next()
+                if not (self.at("Some") and self.at("(", 1) and self.peek(2).kind == "id" and self.at(")", 3) and self.at("=", 4)):
+                    raise Unsupported(f"`if let` other than `if let Some(x) = e` (line {t.line})")
+                self.next(); self.next(); var = self.ident(); self.next(); self.next()
+                sc = self.expr(nostruct=True)
+                th = self.block()
+                if not self.eat("else"): raise Unsupported(f"`if let` without `else` (line {t.line})")
+                if self.at("if"): raise Unsupported(f"`if let … else if` (line {t.line})")
+                return N("iflet", var=var, s=sc, th=th, el=self.block(), line=t.line)
             c = self.expr(nostruct=True)
             th = self.block()
             el = None
@@ -745,6 +832,8 @@ class Parser:
         t = self.peek()
         if t.kind == "int":
             self.next(); return N("pint", v=t.val)
+        if self.at("-") and self.peek(1).kind == "int":
+            self.next(); return N("pint", v=-self.next().val)
         if t.kind == "id" and t.val in ("true", "false"):
             self.next(); return N("pbool", v=(t.val == "true"))
         if self.at("_"):
@@ -781,6 +870,8 @@ class Fn:
         self.body = None             # (start, end) token indices of `{ … }` in self.toks
         self.toks = None             # private copy of the body tokens
         self.outer = None            # enclosing Fn of a nested fn item
+        self.cparams = []            # const generic parameters (value parameters of type Int)
+        self.impl_full = None        # full text of the impl's self type (`QuadInt<I,-1>`, `GaussInt<I>` …)
         self.assoc = {}              # associated types of the impl
         self.order = 0
 
@@ -790,7 +881,7 @@ class Fn:
 
     @property
     def rust_name(self):
-        amp = "&" if (self.tag or "").endswith("_ref") else ""
+        amp = "&" if "_ref" in (self.tag or "") else ""
         return f"<{amp}{self.ty} as {self.trait}>::{self.name}" if self.trait else f"{self.ty}::{self.name}"
 
 
@@ -803,6 +894,9 @@ class Module:
         self.notes = []      # skipped items
         self.derives = {}    # type name -> names in #[derive(..)]
         self.stparams = {}   # struct name -> type parameters
+        self.aliases = {}    # type alias name -> (type parameters, aliased type text)
+        self.stcparams = {}  # struct name -> const generic parameters
+        self.tuple_structs = set()
         self.traits = []     # traits defined in the file (their default methods are in fns, ty = trait name)
         self.macros = {}     # macro_rules name -> (param names, body tokens) for the single-arm `$x:frag, …` form
 
@@ -840,10 +934,42 @@ def expand_macro(mod, name, args_toks, line):
     return out
 
 
+def register_macro(mod, toks, name, s_, e_):
+    """single arm `( $a:frag, $b:frag ) => { body }`"""
+    q = Parser(toks, s_, e_)
+    ms, me = q.skip_balanced()
+    q.expect("=>")
+    bs, be = q.skip_balanced()
+    q.eat(";")
+    if q.i < q.end: raise Unsupported("more than one arm")
+    params, k = [], ms
+    while k < me:
+        if not (toks[k].val == "$" and toks[k + 1].kind == "id" and toks[k + 2].val == ":" and toks[k + 3].kind == "id"):
+            raise Unsupported("matcher is not of the form `$a:frag, $b:frag`")
+        params.append(toks[k + 1].val); k += 4
+        if k < me:
+            if toks[k].val != ",": raise Unsupported("matcher is not of the form `$a:frag, $b:frag`")
+            k += 1
+    mod.macros[name] = (params, list(toks[bs:be]))
+
+
 def parse_items(toks, mod=None, macros=False, depth=0):
     p = Parser(toks)
     mod = mod or Module()
     if depth > 8: raise Unsupported("macro expansion too deep")
+    if macros and depth == 0:                     # macros may be invoked before their definition: collect them first
+        k = 0
+        while k + 3 < len(toks):
+            if toks[k].kind == "id" and toks[k].val == "macro_rules" and toks[k + 1].val == "!" and toks[k + 2].kind == "id":
+                q = Parser(toks, k + 3)
+                try:
+                    s_, e_ = q.skip_balanced()
+                    register_macro(mod, toks, toks[k + 2].val, s_, e_)
+                except Unsupported:
+                    pass
+                k = q.i
+            else:
+                k += 1
     while p.peek().kind != "eof":
         derives = p.skip_attrs()
         if p.eat(";"): continue
@@ -853,6 +979,14 @@ def parse_items(toks, mod=None, macros=False, depth=0):
         if t.kind != "id":
             raise Unsupported(f"unexpected `{t.val}` at item level (line {t.line})")
         kw = t.val
+        if kw == "type" and p.peek(1).kind == "id":
+            p.next(); name = p.ident()
+            tps = []
+            if p.at("<"): tps, _, _ = p.generic_params()
+            if p.eat("="):
+                mod.aliases[name] = (tps, p.ty())
+            while not p.eat(";"): p.next()
+            continue
         if kw in ("use", "extern", "type", "static"):
             while not p.eat(";"):
                 if p.peek().kind == "eof": raise Unsupported(f"unterminated `{kw}` (line {t.line})")
@@ -871,24 +1005,10 @@ def parse_items(toks, mod=None, macros=False, depth=0):
             if not macros:
                 mod.notes.append(f"macro_rules! {name}: macros are not expanded")
                 continue
-            # single arm `( $a:frag, $b:frag ) => { body }`
-            q = Parser(toks, s_, e_)
             try:
-                ms, me = q.skip_balanced()
-                q.expect("=>")
-                bs, be = q.skip_balanced()
-                q.eat(";")
-                if q.i < q.end: raise Unsupported("more than one arm")
-                params, k = [], ms
-                while k < me:
-                    if not (toks[k].val == "$" and toks[k + 1].kind == "id" and toks[k + 2].val == ":" and toks[k + 3].kind == "id"):
-                        raise Unsupported("matcher is not of the form `$a:frag, $b:frag`")
-                    params.append(toks[k + 1].val); k += 4
-                    if k < me:
-                        if toks[k].val != ",": raise Unsupported("matcher is not of the form `$a:frag, $b:frag`")
-                        k += 1
-                mod.macros[name] = (params, list(toks[bs:be]))
+                register_macro(mod, toks, name, s_, e_)
             except (Unsupported, IndexError) as e:
+                mod.macros.pop(name, None)
                 mod.notes.append(f"macro_rules! {name}: not expanded ({e})")
             continue
         if kw == "enum":
@@ -914,21 +1034,36 @@ def parse_items(toks, mod=None, macros=False, depth=0):
             continue
         if kw == "struct":
             p.next(); name = p.ident()
-            stp = []
+            stp, scp = [], []
             if p.at("<"):
+                p.cparams_seen = []
                 stp, sb, why = p.generic_params()
+                scp = list(p.cparams_seen)
                 if why or sb: raise Unsupported(f"generic struct {name}: {why or 'bounded parameters'}")
-            if p.eat("where"): raise Unsupported(f"struct {name} with where clause")
-            if not p.at("{"): raise Unsupported(f"struct {name} is not a struct with named fields")
-            p.expect("{")
             fields = []
-            while not p.at("}"):
-                p.skip_attrs()
-                if p.eat("pub") and p.at("("): p.skip_balanced()
-                f = p.ident(); p.expect(":")
-                fields.append((f, p.ty()))
-                if not p.eat(","): break
-            p.expect("}")
+            if p.at("("):                                   # tuple struct: fields `0`, `1`, …
+                p.next()
+                while not p.at(")"):
+                    p.skip_attrs()
+                    if p.eat("pub") and p.at("("): p.skip_balanced()
+                    fields.append((str(len(fields)), p.ty()))
+                    if not p.eat(","): break
+                p.expect(")")
+                if p.eat("where"): p.where_clause()
+                p.expect(";")
+                mod.tuple_structs.add(name)
+            else:
+                if p.eat("where"): p.where_clause()
+                if not p.at("{"): raise Unsupported(f"struct {name} is not a struct with named fields")
+                p.expect("{")
+                while not p.at("}"):
+                    p.skip_attrs()
+                    if p.eat("pub") and p.at("("): p.skip_balanced()
+                    f = p.ident(); p.expect(":")
+                    fields.append((f, p.ty()))
+                    if not p.eat(","): break
+                p.expect("}")
+            mod.stcparams[name] = scp
             if name in mod.enums or name in mod.structs: raise Unsupported(f"type {name} defined twice")
             mod.structs[name] = fields
             mod.derives[name] = derives
@@ -967,8 +1102,10 @@ def parse_fn(p, tyname, trait, assoc, itps, ibounds, generic):
     f.generic = generic
     f.tparams, f.bounds = list(itps), list(ibounds)
     if p.at("<"):
+        p.cparams_seen = []
         tps, bs, why = p.generic_params()
         f.tparams += tps; f.bounds += bs; f.generic = f.generic or why
+        f.cparams += p.cparams_seen
     p.expect("(")
     while not p.at(")"):
         if p.at("&") and (p.at("self", 1) or (p.peek(1).kind == "life" and p.at("self", 2))):
@@ -1029,9 +1166,11 @@ def parse_trait(p, mod):
 def parse_impl(p, mod):
     line = p.expect("impl").line
     generic = None
-    itps, ibounds = [], []
+    itps, ibounds, icps = [], [], []
     if p.at("<"):
+        p.cparams_seen = []
         itps, ibounds, generic = p.generic_params()
+        icps = list(p.cparams_seen)
     byref = p.at("&")
     first = p.ty()
     trait = None
@@ -1040,7 +1179,10 @@ def parse_impl(p, mod):
         trait, tyname = first, p.ty()
     else:
         tyname = first
+    impl_full = tyname
     tyname = re.sub(r"<.*>$", "", tyname)          # `Ratio<T>` → `Ratio` (the parameters are those of the impl)
+    if tyname in mod.aliases:                       # `impl … for GaussInt<I>`: the aliased struct
+        tyname = re.sub(r"<.*>$", "", mod.aliases[tyname][1])
     blanket = None
     if trait is not None and tyname in itps:        # blanket impl `impl<T> Trait for T`: `Self` is the parameter
         blanket = tyname
@@ -1076,6 +1218,9 @@ def parse_impl(p, mod):
             f = parse_fn(p, tyname, trait, assoc, itps, ibounds, generic)
         if f is None: continue
         f.order = len(mod.fns)
+        f.cparams = icps + f.cparams
+        f.cptypes = dict(getattr(p, "cparam_types", {}))
+        f.impl_full = impl_full
         if byref: f.tag = (f.tag or "") + "_ref"
         mod.fns.append(f)
     p.expect("}")
@@ -1152,10 +1297,20 @@ ZMETH = {"is_zero": ("RInt.is_zero", 0, "bool"), "is_one": ("RInt.is_one", 0, "b
          "is_unit": ("RInt.is_unit", 0, "bool"), "is_negative": ("RInt.is_negative", 0, "bool"),
          "is_positive": ("RInt.is_positive", 0, "bool"), "normalizing_unit": ("RInt.normalizing_unit", 0, "Z"),
          "normalized": ("RInt.normalized", 0, "Z"), "into_normalized": ("RInt.normalized", 0, "Z"),
-         "inv": ("RInt.inv", 0, "Option<Z>"), "abs": ("RInt.abs", 0, "Z"), "signum": ("RInt.signum", 0, "Z")}
+         "inv": ("RInt.inv", 0, "Option<Z>"), "abs": ("RInt.abs", 0, "Z"), "signum": ("RInt.signum", 0, "Z"),
+         "to_i64": ("RInt.to_i64", 0, "Option<Z>"), "is_odd": ("RInt.is_odd", 0, "bool"), "is_even": ("RInt.is_even", 0, "bool")}
+# … that can panic (emitted as a bind)
+ZMETH_M = {"rem_euclid": ("RInt.rem_euclid", 1, "Z"), "div_round": ("RInt.div_round", 1, "Z")}
+# methods / associated functions of the checked i32 type W (target option int32)
+WMETH = {"is_zero": ("I32.is_zero", 0, "bool"), "is_one": ("I32.is_one", 0, "bool"),
+         "is_negative": ("I32.is_negative", 0, "bool"), "is_positive": ("I32.is_positive", 0, "bool")}
+WMETH_M = {"add": ("I32.add", 1, "W"), "sub": ("I32.sub", 1, "W"), "mul": ("I32.mul", 1, "W"), "neg": ("I32.neg", 0, "W"),
+           "div": ("I32.div", 1, "W"), "rem": ("I32.rem", 1, "W"), "rem_euclid": ("I32.rem_euclid", 1, "W")}
+WSTATIC_M = {"gcdx": ("I32.gcdx", 2, "(W,W,W)")}
 # builtin associated functions of the scalar type Z
 ZSTATIC = {"gcd": ("RInt.gcd", 2, "Z"), "lcm": ("RInt.lcm", 2, "Z"), "zero": ("0", 0, "Z"), "one": ("1", 0, "Z"),
-           "default": ("0", 0, "Z")}
+           "default": ("0", 0, "Z"), "neg": ("RInt.neg", 1, "Z"), "add": ("RInt.add", 2, "Z"), "sub": ("RInt.sub", 2, "Z"),
+           "mul": ("RInt.mul", 2, "Z"), "from_i32": ("RInt.from_i32", 1, "Option<Z>")}
 ZSTATIC_OWNERS = {"EucRing", "Ring", "Integer"}      # trait-qualified calls whose Self type is fixed by scalar arguments
 ORD = {"Less": "Ordering.lt", "Equal": "Ordering.eq", "Greater": "Ordering.gt"}
 
@@ -1204,10 +1359,11 @@ class Translator:
         self.fn_mode = None     # block mode of the function body (for `return`)
         self.loop_ctx = None    # (call head, read-only vars, state vars) of the enclosing `loop`
         self.scope_outer = set()
+        if self.cfg.get("const_generics"): self.tag_const_impls()
 
     # -- naming / types
     def lean_ty(self, t):
-        if t == "Z": return "Int"
+        if t in ("Z", "W"): return "Int"
         if t.startswith("(") and t != "()":
             return "(" + " × ".join(self.lean_ty(x) for x in split_top(t[1:-1])) + ")"
         if t in INT64: return "Nat"
@@ -1227,13 +1383,33 @@ class Translator:
         """normalise a parsed type string in the context of fn's impl"""
         g = self.generics_of(fn)
         if t in g["aliases"]: return g["aliases"][t]
-        if t == "Self": return fn.ty
+        if t == "Self":
+            if self.mod.stcparams.get(fn.ty) and self.carg_of(fn) is None:
+                raise Unsupported(f"`Self` = {fn.ty} without a const argument")
+            return fn.ty
+        if t == "i32" and self.cfg.get("int32"): return "W"
+        if t in self.mod.aliases and not self.mod.aliases[t][0]:
+            return self.norm_ty(self.mod.aliases[t][1], fn)
         if t.startswith("(") and t != "()":
             return "(" + ",".join(self.norm_ty(x, fn) for x in split_top(t[1:-1])) + ")"
         m = re.fullmatch(r"(\w+)<(.*)>", t)
-        if m and m.group(1) in self.mod.structs and self.mod.stparams.get(m.group(1)):
-            args = [self.norm_ty(x, fn) for x in split_top(m.group(2))]
-            if self.scalar and all(a == "Z" for a in args) and len(args) == len(self.mod.stparams[m.group(1)]):
+        if m and m.group(1) in self.mod.aliases:
+            ps, body = self.mod.aliases[m.group(1)]
+            args = split_top(m.group(2))
+            if len(ps) != len(args): raise Unsupported(f"type `{t}`")
+            for p_, a_ in zip(ps, args): body = re.sub(r"(?<![\w])" + re.escape(p_) + r"(?![\w])", a_, body)
+            return self.norm_ty(body, fn)
+        if m and m.group(1) in self.mod.structs and (self.mod.stparams.get(m.group(1)) or self.mod.stcparams.get(m.group(1))):
+            raw = split_top(m.group(2))
+            ntp, ncp = len(self.mod.stparams.get(m.group(1), [])), len(self.mod.stcparams.get(m.group(1), []))
+            if len(raw) != ntp + ncp: raise Unsupported(f"type `{t}`")
+            args = [self.norm_ty(x, fn) for x in raw[:ntp]]
+            for c in raw[ntp:]:
+                want = self.carg_of(fn)
+                have = f"({c})" if c.startswith("-") else c
+                if want is None or have != want:
+                    raise Unsupported(f"type `{t}` in a function whose const argument is {want}")
+            if (self.scalar or not args) and all(a == "Z" for a in args):
                 return m.group(1)
             raise Unsupported(f"type `{t}`")
         if t.startswith("Self::") and t[6:] in fn.assoc: return self.norm_ty(fn.assoc[t[6:]], fn)
@@ -1241,7 +1417,8 @@ class Translator:
         m = re.fullmatch(r"Option<(.*)>", t)
         if m: return f"Option<{self.norm_ty(m.group(1), fn)}>"
         if t in BADINT: raise Unsupported(f"type `{t}` (only the 64-bit unsigned integers are in the subset)")
-        if t in self.mod.structs and self.mod.stparams.get(t): raise Unsupported(f"generic type `{t}` without arguments")
+        if t in self.mod.structs and (self.mod.stparams.get(t) or self.mod.stcparams.get(t)):
+            raise Unsupported(f"generic type `{t}` without arguments")
         if t in g["tvars"]: return t
         saved = self.tvars
         self.tvars = g["tvars"]
@@ -1259,10 +1436,20 @@ class Translator:
         nm = ".".join(self.ident(x) for x in f.name.split("."))
         return f"{f.ty}.{f.tag}.{nm}" if f.tag else f"{f.ty}.{nm}"
 
+    def tag_const_impls(self):
+        """impls for a fixed const argument (`GaussInt<I>` = `QuadInt<I, -1>`) get the tag suffix `_m1`"""
+        for f in self.mod.fns:
+            suf = self.carg_suffix(f)
+            if suf and not getattr(f, "ctagged", False):
+                f.tag = (f.tag or "") + suf if f.tag else suf.lstrip("_")
+                f.ctagged = True
+
     def find_fn(self, ty, name, argtys=None):
         c = [f for f in self.mod.fns if f.ty == ty and f.name == name and f.trait is None]
         if not c:
             c = [f for f in self.mod.fns if f.ty == ty and f.name == name]
+            if self.cfg.get("const_generics") and len(c) > 1 and getattr(self, "cur", None) is not None:
+                c = [f for f in c if self.carg_compatible(f)]
             if len(c) > 1 and argtys is not None:
                 def fits(f):
                     try:
@@ -1282,6 +1469,7 @@ class Translator:
     @staticmethod
     def compat(a, b):
         if a == b or "!" in (a, b) or (a in INT64 and b in INT64 and "int" in (a, b)): return True
+        if {a, b} == {"W", "int"}: return True
         if a.startswith("Option<") and b.startswith("Option<") and "Option<_>" in (a, b): return True
         return False
 
@@ -1324,6 +1512,13 @@ class Translator:
         ret = self.norm_ty(f.ret, f)
         env = {}     # rust name -> (lean name, type, mutable)
         params = []
+        for cp in f.cparams:
+            if len(f.cparams) > 1: raise Unsupported("more than one const generic parameter")
+            cpt = getattr(f, "cptypes", {}).get(cp, "i32")
+            if cpt in self.mod.aliases and not self.mod.aliases[cpt][0]: cpt = self.mod.aliases[cpt][1]
+            if cpt != "i32": raise Unsupported(f"const generic parameter {cp}: {cpt}")
+            env[cp] = (self.ident(cp), "W" if self.cfg.get("int32") else "Z", False)
+            params.append((self.ident(cp), "Int"))
         if self.tvars and f.selfk == "mut": raise Unsupported("generic `&mut self` method")
         if f.selfk:
             sty = self.norm_ty("Self", f)
@@ -1400,7 +1595,7 @@ class Translator:
         if self.scalar:
             for tp in f.tparams:
                 bs = [re.sub(r"<.*$", "", b) for t, b in f.bounds if t == tp and not b.startswith("'")]
-                if all(b in SCALAR_BOUNDS for b in bs):
+                if all(b in SCALAR_BOUNDS or (self.cfg.get("int32") and b in SCALAR_BOUNDS_FF) for b in bs):
                     scal.add(tp)
         tparams = [t for t in f.tparams if t not in scal]
         bounds = [(t, b) for t, b in f.bounds if t not in scal]
@@ -1868,6 +2063,8 @@ class Translator:
         if sty not in self.mod.structs: raise Unsupported(f"field `.{field}` of a value of type {sty} (line {line})")
         for f, t in self.mod.structs[sty]:
             if f == field:
+                if t in self.mod.aliases and not self.mod.aliases[t][0]: t = self.mod.aliases[t][1]
+                if t == "i32" and self.cfg.get("int32"): return "W"
                 if t in BADINT: raise Unsupported(f"field {field}: type {t}")
                 if t in self.mod.stparams.get(sty, []):
                     if self.scalar: return "Z"
@@ -2043,10 +2240,13 @@ class Translator:
         if cg["tvars"] or cg["convs"]: raise Unsupported(f"call of the generic function {callee.rust_name} (line {line})")
         info = self.translate_callee(callee)
         its, a = self.tr_args(args, callee, env, line)
-        call = " ".join([self.lean_fn(callee)] + self.fuel_arg(info) + ([recv] if recv is not None else []) + a)
+        if not self.carg_compatible(callee):
+            raise Unsupported(f"call of {callee.rust_name} from an impl with a different const argument (line {line})")
+        call = " ".join([self.lean_fn(callee)] + self.fuel_arg(info) + self.const_args(callee, line) +
+                        ([recv] if recv is not None else []) + a)
         ret = info["ret"]
         if info["pure"]:
-            return its, (f"({call})" if (a or recv is not None) else call), ret
+            return its, (f"({call})" if " " in call else call), ret
         r = self.fresh()
         return its + [("bind", r, call)], r, ret
 
@@ -2054,6 +2254,44 @@ class Translator:
         f = self.cur
         while getattr(f, "outer", None) is not None: f = f.outer
         return f.key
+
+    @staticmethod
+    def field_name(f):
+        return "f" + f if f.isdigit() else f
+
+    def carg_of(self, f):
+        """Lean term of the const generic argument of f's impl: a parameter name (`D`), a literal (`(-1)`) or None"""
+        if f.cparams: return f.cparams[0] if len(f.cparams) == 1 else None
+        full = getattr(f, "impl_full", None) or (getattr(f.outer, "impl_full", None) if getattr(f, "outer", None) else None)
+        if not full: return None
+        base = re.sub(r"<.*>$", "", full)
+        if base in self.mod.aliases:
+            full = self.mod.aliases[base][1]; base = re.sub(r"<.*>$", "", full)
+        if not self.mod.stcparams.get(base): return None
+        m = re.fullmatch(r"\w+<(.*)>", full)
+        args = split_top(m.group(1)) if m else []
+        lits = [a for a in args if re.fullmatch(r"-?\d+", a)]
+        if len(lits) != 1: return None
+        return f"({lits[0]})" if lits[0].startswith("-") else lits[0]
+
+    def carg_suffix(self, f):
+        c = self.carg_of(f)
+        if c is None or f.cparams: return ""
+        return "_" + c.strip("()").replace("-", "m")
+
+    def const_args(self, callee, line):
+        """const generic arguments to pass to callee: those of the current function (all values of a const-generic
+        struct inside one function share its argument — checked on every type that names it)"""
+        if not callee.cparams: return []
+        c = self.carg_of(self.cur)
+        if c is None: raise Unsupported(f"call of {callee.rust_name} outside an impl that fixes its const argument (line {line})")
+        return [c]
+
+    def carg_compatible(self, callee):
+        """may a function of the current impl call callee (same const generic argument)?"""
+        if not self.cfg.get("const_generics"): return True
+        a, b = self.carg_of(self.cur), self.carg_of(callee)
+        return b is None or callee.cparams or a == b
 
     def fuel_arg(self, info):
         if info.get("fuel"):
@@ -2103,7 +2341,7 @@ class Translator:
             return self.tr_path(e, env)
         if k == "field":
             its, t, ty = self.tr(e.e, env)
-            return its, f"{t}.{e.name}", self.field_ty(ty, e.name, line)
+            return its, f"{t}.{self.field_name(e.name)}", self.field_ty(ty, e.name, line)
         if k == "un":
             its, t, ty = self.tr(e.e, env)
             if e.op in ("&", "*"): return its, t, ty          # references are erased (all types here are Copy)
@@ -2111,10 +2349,15 @@ class Translator:
                 if ty == "bool": return its, f"(!{t})", ty
                 if ty in INT64: return its, f"(U64.not {t})", ty
                 raise Unsupported(f"`!` on {ty} (line {line})")
+            if e.op == "-" and ty == "W":
+                r = self.fresh()
+                return its + [("bind", r, f"I32.neg {t}")], r, "W"
             if e.op == "-" and ty == "Z":
                 return its, f"(-{t})", ty
+            if e.op == "-" and ty == "int" and re.fullmatch(r"\d+", t) and self.scalar:
+                return its, f"(-{t})", "Z"
             if e.op == "-" and ty in self.types:
-                c = [f for f in self.mod.fns if f.ty == ty and f.name == "neg" and f.trait == "Neg"]
+                c = [f for f in self.mod.fns if f.ty == ty and f.name == "neg" and f.trait == "Neg" and self.carg_compatible(f)]
                 byref = e.e.kind == "un" and e.e.op == "&" or (e.e.kind == "path" and e.e.segs == ["self"] and self.cur.selfk == "ref")
                 c = [f for f in c if (f.tag or "").endswith("_ref") == bool(byref)] or c
                 if len(c) == 1:
@@ -2133,6 +2376,22 @@ class Translator:
             return self.tr_if_expr(e, env)
         if k == "match":
             return self.tr_match(e, env)
+        if k == "iflet":
+            its, s_, sty = self.tr(e.s, env)
+            if not (sty.startswith("Option<") and sty != "Option<_>"): raise Unsupported(f"`if let Some(..)` on {sty} (line {line})")
+            if self.mutated(e, env): raise Unsupported(f"`if let` whose branches assign variables (line {line})")
+            if not re.fullmatch(r"[\w.]+", s_):
+                r0 = self.fresh(); its = its + [("let", r0, s_)]; s_ = r0
+            env2 = dict(env)
+            v = self.ident(e.var)
+            env2[e.var] = (v, sty[7:-1], False)
+            th = self.tr_block(e.th, env2, ("value", None)); t1 = self.last_ty
+            el = self.tr_block(e.el, env, ("value", None)); t2 = self.last_ty
+            if not self.compat(t1, t2): raise Unsupported(f"`if let` branches of types {t1} and {t2} (line {line})")
+            ty = t2 if t1 in ("!", "Option<_>") else t1
+            th = Code([("bind", v, f"Opt.unwrap {s_}")] + th.items, th.final)
+            r = self.fresh()
+            return its + [("bind", r, IfTerm(f"Option.isSome {s_}", th, el))], r, ty
         if k == "block":
             code = self.tr_block(e, env, ("value", None))
             ty = self.last_ty
@@ -2179,7 +2438,21 @@ class Translator:
 
     def binop(self, op, a, ta, b, tb, line):
         """items, term, type of `a op b` for already translated pure operands"""
+        if "W" in (ta, tb):
+            if ta == "int" and re.fullmatch(r"\d+", a): ta = "W"
+            if tb == "int" and re.fullmatch(r"\d+", b): tb = "W"
+            if ta != tb: raise Unsupported(f"`{op}` on {ta}, {tb} (line {line})")
+            if op in ("+", "-", "*", "/", "%"):
+                r = self.fresh()
+                f = {"+": "add", "-": "sub", "*": "mul", "/": "div", "%": "rem"}[op]
+                return [("bind", r, f"I32.{f} {a} {b}")], r, "W"
+            if op in CMPOPS:
+                sym = {"==": "=", "!=": "≠", "<": "<", ">": ">", "<=": "≤", ">=": "≥"}[op]
+                return [], f"(decide ({a} {sym} {b}))", "bool"
+            raise Unsupported(f"`{op}` on i32 (line {line})")
         if "Z" in (ta, tb):
+            if ta == "int" and re.fullmatch(r"\d+", a): ta = "Z"
+            if tb == "int" and re.fullmatch(r"\d+", b): tb = "Z"
             if ta != tb: raise Unsupported(f"`{op}` on {ta}, {tb} (line {line})")
             if op in ("+", "-", "*"): return [], f"({a} {op} {b})", "Z"
             if op in ("/", "%"):
@@ -2231,8 +2504,27 @@ class Translator:
             return i1 + [("bind" if t.monadic() else "let", r, t)], r, "bool"
         i1, a, ta = self.tr(e.l, env)
         i2, b, tb = self.tr(e.r, env)
+        if ta in self.types and op in ("+", "-", "*", "/", "%"):
+            # operator of a user type: its (by-reference) impl of Add / Sub / Mul / Div / Rem; the other forms are derived
+            mname = {"+": "add", "-": "sub", "*": "mul", "/": "div", "%": "rem"}[op]
+            c = [f for f in self.mod.fns if f.ty == ta and f.name == mname and f.trait and
+                 re.sub(r"<.*$", "", f.trait) == mname.capitalize() and self.carg_compatible(f)]
+            if len(c) == 1 and tb == ta and c[0].selfk in ("val", "ref") and len(c[0].params) == 1:
+                i3, t, ty = self.call_user_terms(c[0], [a, b], line)
+                return i1 + i2 + i3, t, ty
+            raise Unsupported(f"`{op}` on {ta}, {tb} (line {line})")
         i3, t, ty = self.binop(op, a, ta, b, tb, line)
         return i1 + i2 + i3, t, ty
+
+    def call_user_terms(self, callee, terms, line):
+        """call of a user function on already translated argument terms"""
+        cg = self.generics_of(callee)
+        if cg["tvars"] or cg["convs"]: raise Unsupported(f"call of the generic function {callee.rust_name} (line {line})")
+        info = self.translate_callee(callee)
+        call = " ".join([self.lean_fn(callee)] + self.fuel_arg(info) + self.const_args(callee, line) + terms)
+        if info["pure"]: return [], f"({call})", info["ret"]
+        r = self.fresh()
+        return [("bind", r, call)], r, info["ret"]
 
     def simple(self, code):
         return not code.items and code.final[0] == "pure" and isinstance(code.final[1], str)
@@ -2307,8 +2599,9 @@ class Translator:
         if tree[0] != "leaf": raise Unsupported(f"pattern for a tuple scrutinee (line {line})")
         s_, sty = tree[1], tree[2]
         if p.kind == "pint":
-            if sty not in INT64: raise Unsupported(f"integer pattern on {sty} (line {line})")
-            return [f"{s_} = {p.v}"], {}
+            if sty not in INT64 and sty != "Z": raise Unsupported(f"integer pattern on {sty} (line {line})")
+            if p.v < 0 and sty != "Z": raise Unsupported(f"negative pattern on {sty} (line {line})")
+            return [f"{s_} = {p.v}" if p.v >= 0 else f"{s_} = ({p.v})"], {}
         if p.kind == "pbool":
             if sty != "bool": raise Unsupported(f"bool pattern on {sty} (line {line})")
             return [f"{s_} = {'true' if p.v else 'false'}"], {}
@@ -2411,7 +2704,7 @@ class Translator:
             if not self.compat(fty, ty): raise Unsupported(f"field {fn_}: {ty} given, {fty} expected (line {e.line})")
             its += i2; given[fn_] = t
         if set(given) != {f for f, _ in decl}: raise Unsupported(f"struct literal does not give all fields (line {e.line})")
-        body = ", ".join(f"{f} := {unpar(given[f])}" for f, _ in decl)
+        body = ", ".join(f"{self.field_name(f)} := {unpar(given[f])}" for f, _ in decl)
         return its, f"({{ {body} }} : {name}S)", name
 
     def tr_macro(self, e, env):
@@ -2435,8 +2728,32 @@ class Translator:
         if segs == ["Some"] and len(e.args) == 1:
             its, t, ty = self.tr(e.args[0], env)
             return its, f"(some {t})", f"Option<{ty}>"
+        if len(segs) == 1 and (self.cur.ty if segs[0] == "Self" else segs[0]) in self.mod.tuple_structs:
+            name = self.cur.ty if segs[0] == "Self" else segs[0]
+            decl = self.mod.structs[name]
+            if len(decl) != len(e.args): raise Unsupported(f"constructor `{name}(..)` with {len(e.args)} arguments (line {line})")
+            fields = [(f, a) for (f, _), a in zip(decl, e.args)]
+            return self.tr_struct(N("struct", path=[name], fields=fields, line=line), env)
         if len(segs) == 1 and segs[0] in self.local_fns.get(self.outer_key(), {}):
             return self.call_user(self.local_fns[self.outer_key()][segs[0]], None, e.args, env, line)
+        if len(segs) == 2 and self.cfg.get("int32"):
+            owner = segs[0]
+            try:
+                oty = self.norm_ty(owner, self.cur)
+            except Unsupported:
+                oty = None
+            if oty == "W" and segs[1] in WSTATIC_M and len(e.args) == WSTATIC_M[segs[1]][1]:
+                its, ts = [], []
+                for x in e.args:
+                    i2, t, ty = self.tr(x, env)
+                    if not self.compat("W", ty): raise Unsupported(f"argument of type {ty} for `{owner}::{segs[1]}` (line {line})")
+                    its += i2; ts.append(t)
+                r = self.fresh()
+                return its + [("bind", r, " ".join([WSTATIC_M[segs[1]][0]] + ts))], r, WSTATIC_M[segs[1]][2]
+        if len(segs) == 2 and segs[0] in ("Add", "Sub", "Mul", "Div", "Rem") and segs[1] == segs[0].lower() and len(e.args) == 2:
+            # `Add::add(x, y)`: the operator impl of the argument type
+            return self.tr_bin(N("bin", op={"Add": "+", "Sub": "-", "Mul": "*", "Div": "/", "Rem": "%"}[segs[0]],
+                                 l=e.args[0], r=e.args[1], line=line), env)
         if len(segs) == 2 and self.scalar:
             owner = segs[0]
             isz = self.aliases.get(owner) == "Z" or \
@@ -2454,6 +2771,7 @@ class Translator:
                     its, ts = [], []
                     for x in e.args:
                         i2, t, ty = self.tr(x, env)
+                        if ty == "int" and re.fullmatch(r"\d+", t): ty = "Z"
                         if ty != "Z": raise Unsupported(f"argument of type {ty} for `{owner}::{segs[1]}` (line {line})")
                         its += i2; ts.append(t)
                     return its, (f"({fn_} {' '.join(ts)})" if ts else fn_), rty
@@ -2502,6 +2820,30 @@ class Translator:
                 return i1 + i2, f"(compare {recv} {b})", "Ordering"
             if name in ZMETH and len(e.args) == ZMETH[name][1]:
                 return i1, f"({ZMETH[name][0]} {recv})", ZMETH[name][2]
+            if name in ZMETH_M and len(e.args) == ZMETH_M[name][1]:
+                its2, ts = [], []
+                for x in e.args:
+                    i2, t, ty = self.tr(x, env)
+                    if ty == "int" and re.fullmatch(r"\d+", t): ty = "Z"
+                    if ty != "Z": raise Unsupported(f"argument of type {ty} for `.{name}` (line {line})")
+                    its2 += i2; ts.append(t)
+                r = self.fresh()
+                return i1 + its2 + [("bind", r, f"{ZMETH_M[name][0]} {recv} {' '.join(ts)}")], r, ZMETH_M[name][2]
+        if rty == "W":
+            if name == "clone" and not e.args: return i1, recv, rty
+            if name in WMETH and len(e.args) == WMETH[name][1]:
+                return i1, f"({WMETH[name][0]} {recv})", WMETH[name][2]
+            if name in WMETH_M and len(e.args) == WMETH_M[name][1]:
+                its2, ts = [], []
+                for x in e.args:
+                    i2, t, ty = self.tr(x, env)
+                    if not self.compat("W", ty): raise Unsupported(f"argument of type {ty} for `.{name}` (line {line})")
+                    its2 += i2; ts.append(t)
+                r = self.fresh()
+                return i1 + its2 + [("bind", r, " ".join([WMETH_M[name][0], recv] + ts))], r, WMETH_M[name][2]
+        if rty == "bool" and name == "then_some" and len(e.args) == 1:
+            i2, t, ty = self.tr(e.args[0], env)
+            return i1 + i2, f"(if {recv} then some {t} else none)", f"Option<{ty}>"
         if rty.startswith("Option<") and name == "unwrap" and not e.args:
             r = self.fresh()
             inner = rty[7:-1]
@@ -2545,6 +2887,7 @@ def generate(src_text, src_label, target="bitseq"):
     REQUIRED = cfg["required"]
     texts = src_text if isinstance(src_text, list) else [src_text]
     toks, allids, mod = None, set(), None
+    Parser.const_generics = bool(cfg.get("const_generics"))
     for text in texts:
         toks = tokenize(text)
         allids |= {t.val for t in toks if t.kind == "id"}
@@ -2566,8 +2909,8 @@ def generate(src_text, src_label, target="bitseq"):
         lines = [f"/-- `struct {name}` -/", f"structure {name}S where"]
         for f, t in fs:
             if t in BADINT: raise Unsupported(f"struct {name}: field {f} of type {t}")
-            lt = tr.lean_ty("Z") if (t in mod.stparams.get(name, []) and tr.scalar) else tr.lean_ty(t)
-            lines.append(f"  {f} : {lt}   -- {t}")
+            lt = tr.lean_ty(tr.field_ty(name, f, 0))
+            lines.append(f"  {tr.field_name(f)} : {lt}   -- {t}")
         lines.append("deriving DecidableEq, Repr, Inhabited")
         parts.append("\n".join(lines))
     for (ty, name) in sorted(mod.consts):
